@@ -135,6 +135,7 @@ def explore(args):
     if indices is None:
         indices = range(int(args["start"]), int(args["max_index"]), int(args["stride"]))
     max_viol = int(args.get("max_violations", 4))
+    known = [list(k) for k in args.get("known", [])]
     nviol = 0
     with open(args["out"], "w") as fo:
         for index in indices:
@@ -152,7 +153,9 @@ def explore(args):
                 rec.update(out.to_json())
                 if out.violations:
                     rec["scenario"] = sc
-                    nviol += 1
+                    # recorded (known) findings must not use up the worker's violation budget
+                    if any([v["cls"], v["site"]] not in known and [v["cls"], "*"] not in known for v in out.violations):
+                        nviol += 1
                 elif args.get("keep_scenarios") or index < int(args.get("sample_below", 0)):
                     rec["scenario"] = sc
             except Exception:
